@@ -10,6 +10,7 @@ CONSTANTS
   Questions <- Q0
   AllowEnd = FALSE
   MaxRequery = 0
+  FixCommitState = TRUE
 INVARIANTS TypeOK QuietMeansEncrypted InOrderNoDup AllDelivered SlotsSuffice SlotBound
 PROPERTIES BothEncrypted
 CHECK_DEADLOCK FALSE
